@@ -36,6 +36,7 @@ var (
 	// between these two sites, e.g. inside a large write(2) that a real kill
 	// could cut short - torn writes are explored separately by truncation
 	barrierBegin, barrierEnd string
+	barrierPrefix            string // sites with this prefix lie inside the region
 	inBarrier                atomic.Int64
 )
 
@@ -55,8 +56,12 @@ func init() {
 		}
 	}
 	if v := os.Getenv("VERIF_CRASH_BARRIER"); v != "" {
-		if p := strings.SplitN(v, ">", 2); len(p) == 2 {
+		// format: begin>end[>prefix of the sites inside the region]
+		if p := strings.SplitN(v, ">", 3); len(p) >= 2 {
 			barrierBegin, barrierEnd = p[0], p[1]
+			if len(p) == 3 {
+				barrierPrefix = p[2]
+			}
 		}
 	}
 	if v := os.Getenv("VERIF_JOURNAL_FD"); v != "" {
@@ -148,7 +153,12 @@ func Point(site string) {
 		inBarrier.Add(-1)
 	}
 	if cs := crashSite.Load(); cs != nil && *cs == site && n == crashN.Load() {
-		for i := 0; inBarrier.Load() > 0 && i < 30000; i++ {
+		// a site inside the barrier region is hit by a goroutine that is itself counted
+		own := int64(0)
+		if barrierPrefix != "" && strings.HasPrefix(site, barrierPrefix) && site != barrierBegin {
+			own = 1
+		}
+		for i := 0; inBarrier.Load() > own && i < 30000; i++ {
 			time.Sleep(100 * time.Microsecond)
 		}
 		if journalFd >= 0 {
